@@ -1,5 +1,21 @@
 //@@ unit props=C10,C06
 // Unit formats: number-format classification (src/formats.rs), verbatim text.
+//
+// detect_custom_number_format (entry, unbounded in the length of the string):
+//   layer (i)  `scan`/`step`: the scanner as an explicit automaton; loop invariant "result == scan of the rest from the
+//              current ghost state"; clause C10.scan_automaton  r == scan(format@, init()).
+//   layer (ii) what the PROPERTY says, proved about `scan` by induction on the string, with its own vocabulary (p_*):
+//              (a) quoted literals / escape pairs / bracketed prefixes are skipped   lemma_quoted_*, lemma_escape_ignored, lemma_bracket
+//              (b) nothing after the first section separator matters                  lemma_section_end, lemma_sections_after_first_ignored*
+//              (c) first decisive token decides                                       lemma_date_letter, lemma_ampm, lemma_bracket,
+//                  MAIN THEOREM lemma_scan_classify: wf(s) ==> scan(s) == classify(s), classify/tok = tokenizer written from
+//                  the grammar; wf = explicit side conditions (see `tok`, every `Tok::Bad`); exported as C10.first_decisive_token.
+//   Genuine findings (findings/formats.json): lemma_quoted_body FAILS (escape arm precedes quote arms; formal counterexample
+//   counterexample_quoted_underscore), `brackets += 1` overflows u8 (C06).
+// format_excel_i64 / format_excel_f64_ref / format_excel_f64, ExcelDateTime::new, From<DataRef> for Data: shape, flavour,
+//   date system (and the f64 value) here; value bits of the i64 variant and everything again bit-precisely in kani/formats.rs.
+// builtin_format_by_id / builtin_format_by_code: complete Kani harnesses (kani/formats.rs), oracle ECMA-376 18.8.30.
+// char::eq_ignore_ascii_case: assumed here, discharged against std by kani harness char_eq_ignore_ascii_case_spec.
 #![allow(unused_imports, dead_code, unused_variables, unused_mut, unused_assignments)]
 use vstd::prelude::*;
 
@@ -87,8 +103,14 @@ pub open spec fn p_ampm_tail(c: char) -> bool { p_letter(c, 'p') || p_letter(c, 
 
 pub proof fn lemma_vocabulary(c: char)
     ensures
-        p_escape(c) == is_esc(c), p_date_letter(c) == is_date_letter(c), p_hms(c) == is_hms(c), p_a(c) == is_a(c),
-        p_ampm_tail(c) == is_ampm_tail(c),
+        //# C10.vocabulary_escape
+        p_escape(c) == is_esc(c),
+        //# C10.vocabulary_date_letters
+        p_date_letter(c) == is_date_letter(c),
+        //# C10.vocabulary_elapsed_letters
+        p_hms(c) == is_hms(c),
+        //# C10.vocabulary_ampm
+        p_a(c) == is_a(c) && p_ampm_tail(c) == is_ampm_tail(c),
 {
 }
 
@@ -328,6 +350,83 @@ pub proof fn lemma_section_end(t1: Seq<char>, t2: Seq<char>, st: St)
 {
     lemma_scan_cons(';', t1, st);
     lemma_scan_cons(';', t2, st);
+}
+
+/// the automaton run over a whole prefix: the state afterwards, or the early result
+pub open spec fn run(s: Seq<char>, st: St) -> Step
+    decreases s.len()
+{
+    if s.len() == 0 { Step::Cont(st) } else {
+        match step(st, s[0]) {
+            Step::Done(r) => Step::Done(r),
+            Step::Cont(st2) => run(s.drop_first(), st2),
+        }
+    }
+}
+pub proof fn lemma_scan_concat(a: Seq<char>, b: Seq<char>, st: St)
+    ensures scan(a + b, st) == (match run(a, st) { Step::Done(r) => r, Step::Cont(st2) => scan(b, st2) }),
+    decreases a.len(),
+{
+    if a.len() == 0 {
+        assert(a + b =~= b);
+    } else {
+        assert(a + b =~= sq(a[0]) + (a.drop_first() + b));
+        lemma_scan_cons(a[0], a.drop_first() + b, st);
+        match step(st, a[0]) {
+            Step::Done(r) => {},
+            Step::Cont(st2) => { lemma_scan_concat(a.drop_first(), b, st2); },
+        }
+    }
+}
+
+/// the `;` that follows `pre` is a section separator: not inside a quoted literal and not escaped
+/// (or the class has been decided before it)
+pub open spec fn separator_follows(pre: Seq<char>) -> bool {
+    match run(pre, init()) { Step::Done(_) => true, Step::Cont(st) => !st.escaped && !st.quoted }
+}
+/// (b) whatever follows the first section separator never changes the result
+pub proof fn lemma_sections_after_first_ignored(pre: Seq<char>, t1: Seq<char>, t2: Seq<char>)
+    requires separator_follows(pre),
+    ensures
+        //# C10.sections_after_first_ignored_global
+        scan(pre + (sq(';') + t1), init()) == scan(pre + (sq(';') + t2), init()),
+{
+    lemma_scan_concat(pre, sq(';') + t1, init());
+    lemma_scan_concat(pre, sq(';') + t2, init());
+    match run(pre, init()) {
+        Step::Done(_) => {},
+        Step::Cont(st) => { lemma_section_end(t1, t2, st); },
+    }
+}
+/// purely syntactic sufficient condition: a prefix without `"`, `\`, `_` cannot quote or escape what follows it
+pub open spec fn no_literal_syntax(s: Seq<char>) -> bool {
+    forall|i: int| 0 <= i < s.len() ==> #[trigger] s[i] != '"' && !p_escape(s[i])
+}
+pub proof fn lemma_plain_prefix_keeps_unquoted(pre: Seq<char>, st: St)
+    requires no_literal_syntax(pre), !st.escaped, !st.quoted,
+    ensures match run(pre, st) { Step::Done(_) => true, Step::Cont(st2) => !st2.escaped && !st2.quoted },
+    decreases pre.len(),
+{
+    if pre.len() > 0 {
+        let c = pre[0];
+        assert(c != '"' && !p_escape(c));
+        assert forall|i: int| 0 <= i < pre.drop_first().len() implies #[trigger] pre.drop_first()[i] != '"' && !p_escape(pre.drop_first()[i]) by {
+            assert(pre.drop_first()[i] == pre[i + 1]);
+        }
+        match step(st, c) {
+            Step::Done(_) => {},
+            Step::Cont(st2) => { lemma_plain_prefix_keeps_unquoted(pre.drop_first(), st2); },
+        }
+    }
+}
+pub proof fn lemma_sections_after_first_ignored_plain(pre: Seq<char>, t1: Seq<char>, t2: Seq<char>)
+    requires no_literal_syntax(pre),
+    ensures
+        //# C10.sections_after_first_ignored_plain_prefix
+        scan(pre + (sq(';') + t1), init()) == scan(pre + (sq(';') + t2), init()),
+{
+    lemma_plain_prefix_keeps_unquoted(pre, init());
+    lemma_sections_after_first_ignored(pre, t1, t2);
 }
 
 pub proof fn lemma_date_letter(c: char, rest: Seq<char>, st: St)
@@ -703,6 +802,7 @@ pub proof fn witness_lemmas()
     lemma_bracket(seq!['R', 'e', 'd'], e, init());
     lemma_section_end(e, seq!['d'], init());
     lemma_date_letter('Y', e, init());
+    lemma_sections_after_first_ignored_plain(seq!['0', '.', '0'], seq!['d'], e);
     lemma_other_char('0', e, init(), false);
     let am = seq!['A', 'M', '/', 'P', 'M'];
     assert(ampm_at(am));
@@ -714,6 +814,7 @@ pub proof fn witness_lemmas()
 
 // TRUSTED: std doc of char::eq_ignore_ascii_case: "Equivalent to to_ascii_lowercase(a) == to_ascii_lowercase(b)";
 // to_ascii_lowercase maps 'A'..='Z' to 'a'..='z' and leaves every other char unchanged.
+// (checked against the real std implementation for all pairs of chars: kani harness formats::char_eq_ignore_ascii_case_spec)
 pub assume_specification[ char::eq_ignore_ascii_case ](a: &char, b: &char) -> (r: bool)
     ensures r == (ascii_lower(*a) == ascii_lower(*b));
 
